@@ -192,6 +192,10 @@ func storesFor(fname string) (stores, srcs []string) {
 	if fname == "P0" {
 		return fx.StoreNames, append(append([]string{}, allSrcs...), "rstruct")
 	}
+	if fname == "S2" {
+		// typed values: map-backed stores only (no struct types are declared for S2)
+		return []string{"rmap", "nmap", "rslice", "nslice"}, []string{"json", "rmap", "nmap", "nslice"}
+	}
 	for _, s := range fx.StoreNames {
 		if s != "rstruct" {
 			stores = append(stores, s)
@@ -264,8 +268,8 @@ func planC03(tier string, seed int64) (*core.Plan, error) {
 		Assumptions: []string{"stores are built and read back directly (Go maps/structs), not through the library", "fixtures compile to the committed abstract schemas spec/S0.json, spec/S1.json, spec/M0.json (checked on every run)", "errors classified with errors.Is only"},
 	}
 	kinds := []string{"upsert", "insert", "update"}
-	for _, fname := range []string{"S0", "S1", "P0"} {
-		st, err := editStage(fname, r, n/3, kinds, h/3)
+	for _, fname := range []string{"S0", "S1", "P0", "S2"} {
+		st, err := editStage(fname, r, n/4, kinds, h/4)
 		if err != nil {
 			return nil, err
 		}
